@@ -113,6 +113,9 @@ func (s *streamRun) fieldTerm(o protoOutcome, key string) *pt {
 		}
 		return nil
 	}
+	if strings.HasPrefix(key, "local ") {
+		return pC(0) // an untouched field of a local (zeroed) struct
+	}
 	return pParam(key)
 }
 
@@ -121,7 +124,7 @@ func (s *streamRun) content(o protoOutcome, obj, idx int, lo, hi *pt, w want, de
 	if s.prove(o, hi, token.LEQ, lo) {
 		return ""
 	}
-	if depth > 12 {
+	if depth > 450 {
 		return "content resolution too deep"
 	}
 	eff := o.st.geff
@@ -138,7 +141,16 @@ func (s *streamRun) content(o protoOutcome, obj, idx int, lo, hi *pt, w want, de
 		ef := eff[j]
 		switch ef.kind {
 		case "rep":
-			for _, be := range ef.rep.body {
+			fill := false
+			for bi, be := range ef.rep.body {
+				if be.obj == obj && be.kind == "write" && be.val != nil && be.n != nil && len(ef.rep.body) == 1 {
+					if w0, ok := constDiff(be.n, pC(0)); ok && w0 == ef.rep.dOff[bi] && w0 > 0 {
+						// a fill loop: k consecutive elements receive the same value: one write of k*w bytes
+						ef = gEffect{kind: "fill", obj: obj, off: be.off, n: pMul(pC(w0), ef.rep.k), val: be.val, pos: be.pos}
+						fill = true
+						break
+					}
+				}
 				if be.obj == obj && (be.kind == "copy" || be.kind == "write" || be.kind == "put") {
 					return "written inside a loop (" + hname(obj) + ")"
 				}
@@ -146,13 +158,15 @@ func (s *streamRun) content(o protoOutcome, obj, idx int, lo, hi *pt, w want, de
 					return "chaining value changed by a later compression"
 				}
 			}
-			continue
+			if !fill {
+				continue
+			}
 		case "cf":
 			if s.fieldArr(o, ef.what, "h") == obj {
 				return "chaining value changed by a later compression"
 			}
 			continue
-		case "copy", "write", "put":
+		case "copy", "write", "put", "fill":
 		default:
 			if ef.obj == obj && ef.kind != "call" {
 				return "written by " + ef.kind + " " + ef.what
@@ -167,6 +181,37 @@ func (s *streamRun) content(o protoOutcome, obj, idx int, lo, hi *pt, w want, de
 			continue
 		}
 		if !(s.prove(o, wlo, token.LEQ, lo) && s.prove(o, hi, token.LEQ, whi)) {
+			// partial overlap: when the order of the four bounds is known, the wanted range splits into the part this
+			// effect covers (checked against it) and the parts before / after it (checked against the earlier effects)
+			shift := func(w want, by *pt) want {
+				if w.kind == "src" {
+					w.off = pAdd(w.off, by)
+				}
+				return w
+			}
+			if depth < 400 && (w.kind == "src" || w.kind == "zero") {
+				startsInside := s.prove(o, wlo, token.GEQ, lo)
+				endsInside := s.prove(o, whi, token.LEQ, hi)
+				startsBefore := s.prove(o, wlo, token.LEQ, lo)
+				endsAfter := s.prove(o, whi, token.GEQ, hi)
+				if (startsInside || startsBefore) && (endsInside || endsAfter) {
+					clo, chi := lo, hi
+					if startsInside {
+						clo = wlo
+						if why := s.content(o, obj, j, lo, wlo, w, depth+1); why != "" {
+							return why
+						}
+					}
+					if endsInside {
+						chi = whi
+						if why := s.content(o, obj, j, whi, hi, shift(w, pAdd(whi, pNeg(lo))), depth+1); why != "" {
+							return why
+						}
+					}
+					// the covered middle part against this effect alone
+					return s.content(o, obj, j+1, clo, chi, shift(w, pAdd(clo, pNeg(lo))), depth+1)
+				}
+			}
 			return fmt.Sprintf("bytes [%s,%s) of %s are only partly covered by the %s at %s", lo, hi, hname(obj), ef.kind, ef.pos)
 		}
 		switch ef.kind {
@@ -177,7 +222,17 @@ func (s *streamRun) content(o protoOutcome, obj, idx int, lo, hi *pt, w want, de
 			}
 			slo := pAdd(ef.srcOff, pAdd(lo, pNeg(wlo)))
 			return s.content(o, ef.srcObj, at, slo, pAdd(slo, pAdd(hi, pNeg(lo))), w, depth+1)
-		default: // put, write
+		default: // put, write, fill
+			if ef.kind == "fill" {
+				// every element of the covered range holds val
+				if w.kind == "zero" && s.prove(o, ef.val, token.EQL, pC(0)) {
+					return ""
+				}
+				if w.kind == "val" && w.n == 1 && s.prove(o, ef.val, token.EQL, w.t) && samePoly(pAdd(hi, pNeg(lo)), pC(1)) {
+					return ""
+				}
+				return fmt.Sprintf("the fill loop at %s stores %s where %s content is required", ef.pos, ef.val, w.kind)
+			}
 			exact := s.prove(o, wlo, token.EQL, lo) && s.prove(o, whi, token.EQL, hi)
 			if ef.val == nil {
 				return "unknown value stored at " + ef.pos
@@ -684,9 +739,9 @@ func c04ResetNew(r *Report, p *Prog) {
 	if s := newStreamRun(r, p, "sm3.New", nil); s != nil {
 		for _, o := range s.outs {
 			recv := ""
-			for k := range o.st.gfields {
-				if strings.HasSuffix(k, ".nx") && strings.HasPrefix(k, "local ") {
-					recv = strings.TrimSuffix(k, ".nx")
+			if len(o.vals) == 1 {
+				if rv, ok := o.vals[0].(gRecv); ok && strings.HasPrefix(rv.name, "local ") {
+					recv = rv.name
 				}
 			}
 			s.need("NEW-STATE", recv != "" && len(o.vals) == 1 && !isNilVal(o.vals[0]), "New does not return a freshly allocated hash state")
